@@ -1214,6 +1214,24 @@ func c10Corpus() []c10Scn {
 		reqs = append(reqs, c10Req{Ver: ver, PType: c10OneWay, ID: id, Func: "notify", Kind: c10KTarsErr, Code: 4242, Msg: boom})
 		shapes = append(shapes, mk(c10Cfg{0, 0}, ver == c10VerTup, reqs...))
 	}
+	// the two timeout clauses over every version x way x transport, on every run (the random scenarios leave cells empty):
+	// queue timeout behind a blocker (pool 1), and handlers overrunning the handle timeout (no pool: all at once)
+	ways := []int8{c10Normal, c10OneWay, 5}
+	for _, udp := range []bool{false, true} {
+		qs := []c10Req{{Ver: c10VerTars, ID: 2000, Func: "calc", SleepMs: 500, Role: "blocker"}}
+		var hs []c10Req
+		id := int32(2000)
+		for _, ver := range []int16{c10VerTars, c10VerTup, c10VerJSON} {
+			for k, pt := range ways {
+				id++
+				qs = append(qs, c10Req{Ver: ver, PType: pt, ID: id, Func: c10ShapeNames[(k+int(ver))%len(c10ShapeNames)], Timeout: int32(40 * (k + 1)), Queued: 500, Role: "queued", Msg: boom})
+				hs = append(hs, c10Req{Ver: ver, PType: pt, ID: id, Func: c10ShapeNames[(k+int(ver)+2)%len(c10ShapeNames)], SleepMs: 750, Kind: int32(k), Code: 9, Msg: boom})
+			}
+		}
+		q := mk(c10Cfg{1, 0}, udp, qs...)
+		q.Kind = "queue"
+		shapes = append(shapes, q, mk(c10Cfg{0, 250}, udp, hs...))
+	}
 	return append(shapes, []c10Scn{
 		// Props/C10.v C10_error_code_on_wire_refuted (tup_error_witness): TUP, id 7, *tars.Error{78, "boom"}; and the same
 		// failure seen by a TARS and a JSON caller
@@ -1252,7 +1270,7 @@ func c10Configs(tier string) []c10Cfg {
 
 func c10Gen(tier string, rng *rand.Rand) []c10Scn {
 	var out []c10Scn
-	nt, nu, nq, nr, ns, nh, no := 12, 6, 4, 2, 2, 2, 2
+	nt, nu, nq, nr, ns, nh, no := 8, 4, 3, 2, 2, 2, 2
 	if tier == "thorough" {
 		nt, nu, nq, nr, ns, nh, no = 90, 36, 12, 8, 8, 8, 10
 	}
